@@ -272,7 +272,10 @@ pub fn run() -> Report {
         match min_nofile(&wk, &RunSpec::new("bitcoin", "csvdump")) {
             Some(x) => x,
             None => {
-                rep.machinery("calibration: single-file layout fails even with RLIMIT_NOFILE=64".into());
+                // the plain run over the simplest layout fails whatever the limit: not a matter of descriptors (C01 / C03 judge it)
+                rep.count("note:calibration-run-fails-under-every-descriptor-limit", 1);
+    rep.exhaustive = false;
+                rep.not_covered.push("the run over the single-file layout fails on this tree even with 64 descriptors: the descriptor oracles need a working reference and were not run".into());
                 return rep;
             }
         }
@@ -362,7 +365,8 @@ pub fn run() -> Report {
     // cannot happen unless the premise of this check is gone altogether
     let nj = rep.counters.get("not-judged:delivered-heights-differ-from-the-layout-model").copied().unwrap_or(0);
     if nj * 2 > rep.states {
-        rep.machinery(format!("{} of {} layouts could not be judged (delivered heights differ from the layout model)", nj, rep.states));
+        // which heights are delivered is C02 / C04's business; this check can only say that it could not look
+        rep.not_covered.push(format!("{} of {} layouts could not be judged: the run delivers other heights than the layout model (a matter of C02 / C04)", nj, rep.states));
     }
     // large disjoint layouts
     for (files, obfuscated) in [(200usize, false), (1200, false), (200, true)] {
